@@ -320,7 +320,10 @@ class Shape2D(Shape):
 
     @minimal_bounding_circle_radius.setter
     def minimal_bounding_circle_radius(self, value):
-        self._rescale(value / self.minimal_bounding_circle_radius)
+        if value > 0:
+            self._rescale(value / self.minimal_bounding_circle_radius)
+        else:
+            raise ValueError("Minimal bounding circle radius must be greater than zero.")
 
     @property
     def minimal_centered_bounding_circle(self):
@@ -349,7 +352,10 @@ class Shape2D(Shape):
 
     @minimal_centered_bounding_circle_radius.setter
     def minimal_centered_bounding_circle_radius(self, value):
-        self._rescale(value / self.minimal_centered_bounding_circle_radius)
+        if value > 0:
+            self._rescale(value / self.minimal_centered_bounding_circle_radius)
+        else:
+            raise ValueError("Minimal centered bounding circle radius must be greater than zero.")
 
     @property
     def maximal_bounded_circle(self):
@@ -376,7 +382,10 @@ class Shape2D(Shape):
 
     @maximal_bounded_circle_radius.setter
     def maximal_bounded_circle_radius(self, value):
-        self._rescale(value / self.maximal_bounded_circle_radius)
+        if value > 0:
+            self._rescale(value / self.maximal_bounded_circle_radius)
+        else:
+            raise ValueError("Maximal bounded circle radius must be greater than zero.")
 
     @property
     def maximal_centered_bounded_circle(self):
@@ -400,7 +409,10 @@ class Shape2D(Shape):
 
     @maximal_centered_bounded_circle_radius.setter
     def maximal_centered_bounded_circle_radius(self, value):
-        self._rescale(value / self.maximal_centered_bounded_circle_radius)
+        if value > 0:
+            self._rescale(value / self.maximal_centered_bounded_circle_radius)
+        else:
+            raise ValueError("Maximal centered bounded circle radius must be greater than zero.")
 
 
 class Shape3D(Shape):
@@ -473,7 +485,10 @@ class Shape3D(Shape):
 
     @minimal_bounding_sphere_radius.setter
     def minimal_bounding_sphere_radius(self, value):
-        self._rescale(value / self.minimal_bounding_sphere_radius)
+        if value > 0:
+            self._rescale(value / self.minimal_bounding_sphere_radius)
+        else:
+            raise ValueError("Minimal bounding sphere radius must be greater than zero.")
 
     @property
     def minimal_centered_bounding_sphere(self):
@@ -506,7 +521,10 @@ class Shape3D(Shape):
 
     @minimal_centered_bounding_sphere_radius.setter
     def minimal_centered_bounding_sphere_radius(self, value):
-        self._rescale(value / self.minimal_centered_bounding_sphere_radius)
+        if value > 0:
+            self._rescale(value / self.minimal_centered_bounding_sphere_radius)
+        else:
+            raise ValueError("Minimal centered bounding sphere radius must be greater than zero.")
 
     @property
     def maximal_bounded_sphere(self):
@@ -533,7 +551,10 @@ class Shape3D(Shape):
 
     @maximal_bounded_sphere_radius.setter
     def maximal_bounded_sphere_radius(self, value):
-        self._rescale(value / self.maximal_bounded_sphere_radius)
+        if value > 0:
+            self._rescale(value / self.maximal_bounded_sphere_radius)
+        else:
+            raise ValueError("Maximal bounded sphere radius must be greater than zero.")
 
     @property
     def maximal_centered_bounded_sphere(self):
@@ -557,4 +578,7 @@ class Shape3D(Shape):
 
     @maximal_centered_bounded_sphere_radius.setter
     def maximal_centered_bounded_sphere_radius(self, value):
-        self._rescale(value / self.maximal_centered_bounded_sphere_radius)
+        if value > 0:
+            self._rescale(value / self.maximal_centered_bounded_sphere_radius)
+        else:
+            raise ValueError("Maximal centered bounded sphere radius must be greater than zero.")
